@@ -166,9 +166,50 @@ def run(chk):
                        "(edge cover by walks); non-trivial = distinct (memory, layout, operation) whose step changed memory")
     chk.assumptions += ["services always carry at least one port (the API forbids zero-port LoadBalancers)",
                         "catalogue of pool layouts and request profiles as listed in spec/Domain.tla and spec/AllocMC.tla"]
+    if chk.prop == "C11":
+        run_shapes(chk)
     # the same property at the level of the controller (Service statuses, re-syncs, restarts)
     import fam_ctrl
     fam_ctrl.run_controller(chk)
+
+
+def run_shapes(chk, only=None):
+    """C11 arithmetic: pool shapes with real prefix lengths (IPv6 /56../128 combined with each other and
+    with IPv4 blocks), counters of the real allocator judged against the exact count (limb arithmetic)."""
+    cfg = "PoolShape_gen2.cfg" if chk.tier == "quick" else "PoolShape_gen3.cfg"
+    shapes = []
+    if only is None:
+        res = vlib.tlc(chk.work, "PoolShape", cfg, workers=4, timeout=1200, json_sink=shapes.append)
+        chk.add_model_run(cfg, res)
+        if res.error or not shapes:
+            raise vlib.Inconclusive("PoolShape generation: %s %s" % (res.error, res.out[-800:]))
+        shapes.sort(key=vlib.canon)
+    else:
+        shapes = only
+    scen = os.path.join(chk.work, "shapes.ndjson")
+    with open(scen, "w") as fh:
+        for sh in shapes:
+            fh.write(json.dumps(sh) + "\n")
+    obs_path = os.path.join(chk.work, "obs_shapes.ndjson")
+    ov = vlib.overlay_for(vlib.harness_mapping("allocator", "internal/allocator"), chk.work)
+    rc, out = vlib.go_test("internal/allocator", "^TestVerifPoolShapes$", ov, {"VERIF_SCENARIOS": scen, "VERIF_OBS": obs_path})
+    if rc != 0:
+        raise vlib.Inconclusive("shape harness failed (rc=%s):\n%s" % (rc, out[-3000:]))
+    fails, nlines = vlib.run_judge_parallel(chk, "PoolShape", "PoolShape_judge.cfg", obs_path, chunks=4)
+    obs = [json.loads(l) for l in open(obs_path)]
+    chk.cov["evaluations"] += nlines
+    chk.cov["traces_validated_against_impl"] += nlines
+    chk.cov["distinct_nontrivial"] += len(set(vlib.canon([o["cidrs"], o["avoid"]]) for o in obs))
+    chk.cov["samples"].append({"shape": obs[0]})
+    for f in fails:
+        o = obs[f["line"] - 1]
+        for name in f["fails"]:
+            fams = "+".join("%s/%d" % (c["fam"], c["len"]) for c in o["cidrs"])
+            hugefirst = any((128 - c["len"] >= 62) for c in o["cidrs"][:-1] if c["fam"] == "v6")
+            kind = "overflow-after-huge-prefix" if hugefirst and name == "C11.ShapeV6" else "count"
+            chk.fail("%s|%s|avoid=%s|%s" % (name, kind, o["avoid"], fams if kind == "count" else "*"), name,
+                     detail={"observation": o},
+                     scenario={"family": "shape", "shapes": [{"cidrs": o["cidrs"], "avoid": o["avoid"]}]})
 
 
 def confirm(chk, mine, walks, steps, init_state, domain_path, byw):
@@ -203,6 +244,8 @@ def confirm(chk, mine, walks, steps, init_state, domain_path, byw):
 
 def replay(chk, path):
     body = json.load(open(path))
+    if body["scenario"].get("family") == "shape":
+        return run_shapes(chk, only=body["scenario"]["shapes"])
     if body["scenario"].get("family") == "ctrl":
         import fam_ctrl
         return fam_ctrl.replay(chk, path)
